@@ -286,7 +286,7 @@ def kani_part(report, tier):
     kc.add(Harness("canary_must_fail", "        let ta: f64 = kani::any();\n        let r = Rate::<quantities::length::Length, quantities::duration::Duration>::new(ta, quantities::length::METER, 1.0, quantities::duration::SECOND);\n        assert!(r.reciprocal().term_amount().to_bits() == ta.to_bits());\n",
                    expect="fail", key="canary", symbolic=False))
     report.bounds["kani_rate"] = "every f64 bit pattern for both amounts, every unit pair (symbolic indices) of Rate<Length,Duration>, Rate<AmountT,Mass>, Rate<Pile(single-unit),Temperature(no reference)>, Rate<Energy,AmountT>"
-    kc.run(report, timeout=900)
+    kc.run(report, timeout=(480 if tier == "quick" else 3000))
     confirm_failures(report)
 
 
